@@ -10,6 +10,18 @@ counter-examples at the end of this file, one per known deviation class):
         (Z : ZoneView) (hapex : ∀ s, soa = some s → canonKey s = Z.apex)
         (hZ : ConsistentWith nsecs Z) : Claim q qtype rcode answers Z
 
+That it is false is proved too: `C08Refute.lean` gives, for every deviation class, an input with
+`Unsound …` (model answers `Secure`, a consistent zone view falsifies the claim).
+
+COMPLETENESS (stated, not proved — there is no Lean model of the server side `nsec_zone` /
+`closest_nsec` / `nsec_records` / `build_authoritative_response`):
+
+    ∀ Z signed, ∀ q qtype, verifyNsec q qtype (soaOf (serverResponse Z q qtype)) … = .secure
+
+It is validated end to end by the harness on the real code (signed `InMemoryZoneHandler` →
+`Catalog` → `DnssecDnsHandle`) and does NOT hold either: seven classes of server-generated
+proofs are rejected (known-findings C08-G1 … C08-G7).
+
 PROVED: `soundness_partial` — the same statement under the one additional decidable hypothesis
 `classify q qtype soa rcode answers nsecs = none` (no known deviation class applies to the
 input; `Nsec.classify`, mirrored by the harness and compared with it on every run).
